@@ -24,7 +24,8 @@ RULE = (
     "Each process = store creation + evaluation (+ loads) under the proxy (every os.* / open / raw read / half write / close is "
     "one step). Schedules: Hypothesis lists of ints (one step of runnable[x % n] each), and for two-process scenarios every "
     "schedule 'A runs i steps, B runs j steps, A finishes, B finishes' and its mirror on a stride (quick: ~40 per scenario; "
-    "thorough: complete up to 1200 per scenario). Checked per schedule: no process raises (a loader may get the documented missing-path DDSException only for "
+    "thorough: complete up to 1200 per scenario), and for the three-process scenario the family 'keeper A runs i steps, keeper B finishes, A runs j more steps, "
+    "the loader runs completely, A finishes' on a stride. Checked per schedule: no process raises (a loader may get the documented missing-path DDSException only for "
     "a path never committed before), every evaluation returns its model value, every load returns the old or the new complete "
     "value, then an observer and a final evaluating process see complete / correct values for every path. Non-trivial = the "
     "schedule preempts a process between a stat (exists / isdir / realpath) and its following mutating operation; distinct by (scenario, schedule)."
@@ -35,7 +36,7 @@ ASSUMPTIONS = [
     "a child that does not reach its next boundary within the timeout is 'blocked' and the schedule is inconclusive (never a violation)",
 ]
 
-KINDS = ["cold_same", "cold_same", "created_same", "rekeep_vs_loader", "rekeep_vs_oldeval", "two_views", "three"]
+KINDS = ["cold_same", "cold_same", "created_same", "rekeep_vs_loader", "rekeep_vs_oldeval", "two_views", "three", "three"]
 STAT = ("path.exists", "path.isdir", "path.lexists", "path.realpath", "path.isfile", "path.islink", "stat", "lstat")
 
 
@@ -228,12 +229,131 @@ def check_scenario(sc, ev=None, scratch=None, tier="quick"):
             for (a, i, j) in pairs[off::stride]:
                 d = ["preempt", a, i, j]
                 one(d, expand(d))
+        elif len(nops) == 3:
+            # two keepers and a loader: keeper a runs i steps, the other keeper finishes, keeper a runs j more steps,
+            # the loader runs completely, keeper a finishes
+            triples = [(a, i, j) for a in (0, 1) for i in range(1, nops[a]) for j in range(0, nops[a] - i + 1)]
+            stride = max(1, len(triples) // (1500 if tier == "thorough" else 60))
+            off = sc["sys_seed"] % stride
+            for (a, i, j) in triples[off::stride]:
+                d = ["preempt3", a, i, j]
+                one(d, expand(d))
+    finally:
+        if own:
+            scratch.clean()
+
+
+# ---- a kept reader (dds.load inside a kept function) racing with a re-keep of the path it loads ---------------------
+
+def reader_strategy():
+    from hypothesis import strategies as st
+
+    return st.fixed_dictionaries({
+        "reader": st.tuples(st.sampled_from(["kept", "kept_helper", "kept_inline_arg", "root", "helper"]), st.sampled_from(["data", "keepcall"]), st.integers(0, 3)).map(list),
+        "cache": st.sampled_from([None, None, 2]),
+        "schedules": st.lists(st.lists(st.integers(0, 1), min_size=5, max_size=120), min_size=1, max_size=3),
+        "sys_seed": st.integers(0, 10 ** 6),
+    })
+
+
+def check_reader_scenario(sc, ev=None, scratch=None, tier="quick"):
+    """Process A re-keeps /src/v with changed code while process B evaluates a pipeline whose (kept) reader loads /src/v.
+    B must return the reader's result for the old or for the new content; afterwards, whatever /src/v is made to serve by later
+    (sequential) processes, the reader's result must be the one for that content - a result computed from one content must never
+    sit under the signature of the other."""
+    from . import c09
+
+    own = scratch is None
+    scratch = scratch or common.Scratch("vf-c07")
+    import dds  # noqa
+    import shutil
+
+    placement, producer, noise = sc["reader"]
+    prog_old, root, p_entry, reader_kept = c09.build(placement, "earlier_eval", producer, noise, False)
+    prog_new = M.apply_edit(prog_old, ["setvar", 0, 2])
+    pstyle = "direct" if M.is_data(prog_old["funcs"][p_entry]) else "eval"
+    cache = sc["cache"]
+    src = {}
+    root_val = {}
+    rd_val = {}
+    for tag, pg in (("old", prog_old), ("new", prog_new)):
+        _, itp = M.expected_value(pg, p_entry)
+        src[tag] = itp.kept["/src/v"]
+        root_val[tag], itr = M.expected_value(pg, root, committed={"/src/v": src[tag]})
+        rd_val[tag] = itr.kept.get("/rd")
+    what0 = f"scenario kept-reader-vs-rekeep reader={sc['reader']} cache={cache}"
+    try:
+        def one(desc, schedule):
+            what = f"{what0} schedule={desc}"
+            case = dict(sc, failing_schedule=desc)
+            base = scratch.sub()
+            try:
+                live = os.path.join(base, "live")
+                dirs = {}
+                for tag, pg in (("old", prog_old), ("new", prog_new)):
+                    dirs[tag] = os.path.join(base, "src_" + tag)
+                    c06.write_prog(dirs[tag], pg)
+                r = sched.run_plain(c06.process_fn(dirs["old"], live, prog_old, p_entry, pstyle, cache))
+                if r[0] != "ok":
+                    raise Violation(f"{what}: populating the store raised {r[1]}", case)
+                a = c06.process_fn(dirs["new"], live, prog_new, p_entry, pstyle, cache)
+                b = c06.process_fn(dirs["new"], live, prog_new, root, "eval", cache)
+                run = sched.run([a, b], schedule=schedule)
+                if run["blocked"]:
+                    return run
+                for slot, res in enumerate(run["results"]):
+                    if res[0] != "ok":
+                        info = res[1] or {}
+                        raise Violation(f"{what}: process {slot} ({'re-keep of /src/v' if slot == 0 else 'reader pipeline'}) failed with {info.get('type', res[0])}: {str(info.get('msg'))[:300]}", case)
+                got_b = run["results"][1][1]["evals"][0][0]
+                if got_b not in (root_val["old"], root_val["new"]):
+                    raise Violation(f"{what}: the reader pipeline returned {got_b!r}; the results for the old / new content of /src/v are {root_val['old']!r} / {root_val['new']!r}", case)
+                # afterwards, sequentially: /src/v is made to serve the old content again, then the new one
+                for tag in ("old", "new", "old"):
+                    r1 = sched.run_plain(c06.process_fn(dirs[tag], live, prog_old if tag == "old" else prog_new, p_entry, pstyle, cache))
+                    r2 = sched.run_plain(c06.process_fn(dirs[tag], live, prog_old if tag == "old" else prog_new, root, "eval", cache, loads=["/src/v"] + (["/rd"] if rd_val[tag] is not None else [])))
+                    for rr in (r1, r2):
+                        if rr[0] != "ok":
+                            raise Violation(f"{what}: a later process ({tag} code) raised {rr[1]['type']}: {rr[1]['msg'][:300]}", case)
+                    got = r2[1]["evals"][0][0]
+                    if got != root_val[tag]:
+                        raise Violation(f"{what}: after both processes finished, /src/v was made to serve its {tag} content and the reader pipeline returned {got!r}, expected {root_val[tag]!r} "
+                                        f"(the reader pipeline had returned {'the old' if got_b == root_val['old'] else 'the new'} result during the race)", case)
+                    la = r2[1]["loads_after"]
+                    if la["/src/v"] != ("ok", src[tag]) or (rd_val[tag] is not None and la["/rd"] != ("ok", rd_val[tag])):
+                        raise Violation(f"{what}: after the later evaluation with the {tag} code the paths load {la}", case)
+                if ev is not None:
+                    nt = window_preempted(run["trace"])
+                    ev.case({"kind": "reader_vs_rekeep", "reader": sc["reader"], "cache": cache, "schedule": desc if len(str(desc)) < 300 else str(desc)[:300], "steps": len(run["trace"])}, nt,
+                            features=["kind:reader_vs_rekeep", "sched:" + str(desc[0]), "reader-saw:" + ("old" if got_b == root_val["old"] else "new")] + (["preempted-in-window"] if nt else []),
+                            key=[sc["reader"], cache, desc])
+                return run
+            finally:
+                shutil.rmtree(base, ignore_errors=True)
+
+        if "failing_schedule" in sc:
+            d = sc["failing_schedule"]
+            one(d, expand(d))
+            return
+        first = one(["sequential"], [])
+        for s_ in sc["schedules"]:
+            one(["random", s_], s_)
+        na, nb = first["nops"]
+        pairs = [(a_, i, j) for a_ in (0, 1) for i in range(1, (na if a_ == 0 else nb)) for j in range(1, (nb if a_ == 0 else na) + 1)]
+        stride = max(1, len(pairs) // (1200 if tier == "thorough" else 60))
+        off = sc["sys_seed"] % stride
+        for (a_, i, j) in pairs[off::stride]:
+            d = ["preempt", a_, i, j]
+            one(d, expand(d))
     finally:
         if own:
             scratch.clean()
 
 
 def expand(d):
+    if d[0] == "preempt3":
+        _, a, i, j = d
+        return [f"s{a}"] * i + [f"f{1 - a}"] + [f"s{a}"] * j + ["f2", f"f{a}"]
     if d[0] == "preempt":
         _, a, i, j = d
         return [a] * i + [1 - a] * j + [a] * 5000
@@ -251,6 +371,8 @@ def shard(idx, n, tier, seed, count):
     opts = {"exclude": common.open_features(ID), "max_funcs": 3, "max_mods": 1, "rets": True, "classes": False, "data_den": 2}
     try:
         v = common.hyp_drive(scenario_strategy(opts), lambda c: check_scenario(c, ev, scratch, tier), seed * 1000 + 700 + idx, count, ev, shrink_budget=10)
+        if v is None and idx % 2 == 0:
+            v = common.hyp_drive(reader_strategy(), lambda c: check_reader_scenario(c, ev, scratch, tier), seed * 1000 + 750 + idx, max(1, count // 2), ev, shrink_budget=6)
     finally:
         scratch.clean()
     return ev, v
@@ -262,4 +384,7 @@ def run(tier, seed, scale=1.0):
 
 
 def replay(case):
-    check_scenario(case)
+    if "reader" in case:
+        check_reader_scenario(case)
+    else:
+        check_scenario(case)
